@@ -79,29 +79,43 @@ let () =
       | _ -> failwith "RS")
 
 (* ---- metadata model
-   MI kur ucs2 ucs4                     start an index (ids of unicode-range, ucs2, ucs4)
-   MT name k v k v ...                  add a table (features sorted by key,value) in index order
-   MQ k v k v ...                       query (sorted by key): prints "Q <name or -> | names..."
+   MI kur ucs2 ucs4 | lk lk ...         start an index (ids of unicode-range, ucs2, ucs4; ids of the language keys)
+   MT name k n v.. k n v.. ...          add a table (features sorted by key,value; a value is n subtag ids) in index order
+   MQ k n v.. k n v.. ...               query (sorted by key): prints "Q <name or -> | names..."
+   MS q-features | t-features           score
    MG key | k v line k v line ...       get_info                                              *)
 let m_ids = ref (N0, N0, N0)
-let m_index : (n * (n * n) list) list ref = ref []
-let rec pairs = function a :: b :: r -> (n_of_int a, n_of_int b) :: pairs r | _ -> []
+let m_lang : n list ref = ref []
+let m_islang k = List.mem k !m_lang
+let m_index : (n * (n * n list) list) list ref = ref []
+let rec feats = function
+  | k :: n :: r ->
+    let rec take c l = if c = 0 then ([], l) else (match l with x :: t -> let (a, b) = take (c - 1) t in (n_of_int x :: a, b) | [] -> failwith "feats") in
+    let (v, rest) = take n r in
+    (n_of_int k, v) :: feats rest
+  | [] -> []
+  | _ -> failwith "feats"
 let rec triples = function a :: b :: c :: r -> ((n_of_int a, n_of_int b), z_of_int c) :: triples r | _ -> []
 let () =
-  reg "MI" (fun ws -> (match ints ws with [ a; b; c ] -> m_ids := (n_of_int a, n_of_int b, n_of_int c) | _ -> failwith "MI");
-             m_index := []; None);
-  reg "MT" (fun ws -> (match ints ws with n :: r -> m_index := !m_index @ [ (n_of_int n, pairs r) ] | _ -> failwith "MT"); None);
+  reg "MI" (fun ws ->
+      (match split_bar ws with
+       | [ ids; lk ] ->
+         (match ints ids with [ a; b; c ] -> m_ids := (n_of_int a, n_of_int b, n_of_int c) | _ -> failwith "MI");
+         m_lang := List.map n_of_int (ints lk)
+       | _ -> failwith "MI");
+      m_index := []; None);
+  reg "MT" (fun ws -> (match ints ws with n :: r -> m_index := !m_index @ [ (n_of_int n, feats r) ] | _ -> failwith "MT"); None);
   reg "MQ" (fun ws ->
       let (a, b, c) = !m_ids in
-      let q = pairs (ints ws) in
-      let one = find_table a b c !m_index q in
-      let all = find_tables a b c !m_index q in
+      let q = feats (ints ws) in
+      let one = find_table a b c m_islang !m_index q in
+      let all = find_tables a b c m_islang !m_index q in
       Some ("Q " ^ (match one with None -> "-" | Some n -> string_of_int (int_of_n n)) ^ " |"
             ^ String.concat "" (List.map (fun n -> " " ^ string_of_int (int_of_n n)) all)));
   reg "MS" (fun ws ->
       let (a, b, c) = !m_ids in
       match split_bar ws with
-      | [ q; t ] -> Some (string_of_int (int_of_z (score a b c (pairs (ints q)) (pairs (ints t)))))
+      | [ q; t ] -> Some (string_of_int (int_of_z (score a b c m_islang (feats (ints q)) (feats (ints t)))))
       | _ -> failwith "MS");
   reg "MG" (fun ws ->
       match split_bar ws with
